@@ -25,6 +25,8 @@ def size_leaves(body, e, out, ops, depth=0, seen=None, sub=None):
         seen.add(("call", e[1]))
         t = body.term(e[1])
         n = callee_name(t)
+        if n.endswith("::from_residual"):
+            return      # the None / Err handed on by `?`: not a size
         if n in ADDS:
             ops.add(n.rsplit("::", 1)[1])
             for a in t["args"]:
@@ -641,6 +643,13 @@ def rule_size_hint_use(ctx, rule="C11-hint"):
                 ok = re.match(r"^core::iter::traits::iterator::Iterator::size_hint\(.*\)\.0$", a) is not None
                 ctx.ob(rule, path, "reserves-lower-bound:" + callee_name(t).rsplit("::", 1)[1], ok, line=t.get("line", 0), how="reserves size_hint().0",
                        detail="%s pre-reserves %s: not the lower bound of the size hint" % (path, a))
+                # ... and only where one item is at least one byte: chars.  The number of &str / String /
+                # LeanString pieces says nothing about their bytes (sixty empty pieces are no bytes)
+                mi = re.search(r"collect::(?:Extend|FromIterator)<(.*)>>::", path)
+                item = mi.group(1) if mi else None
+                if item is not None:
+                    ctx.ob(rule, path, "hint-counts-bytes:" + callee_name(t).rsplit("::", 1)[1], re.match(r"^&?('\w+ )?char$", item) is not None, line=t.get("line", 0), how="items are chars (>= 1 byte each)",
+                           detail="%s pre-reserves the number of items of an iterator over %s as if it were a number of bytes: empty pieces make it an over-reservation (a short text spills to the heap, a buffer grows beyond the rule)" % (path, item))
     ctx.need(rule, "crate", "sites", n >= 1, "only %d size_hint-driven reservations found" % n, how="%d size_hint-driven reservations" % n)
 
 
